@@ -32,7 +32,10 @@ let hex_of_bytes (l : n list) : string =
     List.iter (fun x -> Buffer.add_string b (Printf.sprintf "%02x" (int_of_n x))) l;
     Buffer.contents b end
 let n_of_string s = n_of_int (int_of_string s)
-let string_of_n x = string_of_int (int_of_n x)
+let rec int64_of_pos (p : positive) : int64 =
+  match p with XH -> 1L | XO q -> Int64.mul 2L (int64_of_pos q) | XI q -> Int64.add (Int64.mul 2L (int64_of_pos q)) 1L
+(* values up to 2^64-1 print correctly (unsigned) *)
+let string_of_n x = match x with N0 -> "0" | Npos p -> Printf.sprintf "%Lu" (int64_of_pos p)
 
 (* ---------- case parsing ---------- *)
 type case = { kind : string; id : string; lines : (string * string list) list }
@@ -430,6 +433,187 @@ let handle_iter c =
       | _ -> failwith "bad q line") (get_all c "q")
   | _ -> spec_ok c (prop ^ ".open") false "file does not open in the model"
 
+
+(* ---------- C06: merger ---------- *)
+let parse_sources c : (n list * n list) list list =
+  let srcs = ref [] and cur = ref [] and started = ref false in
+  List.iter (fun (tag, toks) ->
+    match tag, toks with
+    | "s", _ -> if !started then srcs := List.rev !cur :: !srcs; cur := []; started := true
+    | "e", [k; v] -> cur := (bytes_of_hex k, bytes_of_hex v) :: !cur
+    | _ -> ()) c.lines;
+  if !started then srcs := List.rev !cur :: !srcs;
+  List.rev !srcs
+
+let handle_merge c =
+  let prop = get1 c "prop" in
+  let srcs = parse_sources c in
+  let calls = ref [] in
+  let base : n -> n list -> n list list -> n list outcome = fun ord k vs -> mf_concat ord k vs in
+  let mf0 = match get c "mf" with
+    | ["failat"; j] -> mf_fail_at (n_of_string j) base
+    | _ -> base in
+  let mf ord k vs = calls := (k, vs) :: !calls; mf0 ord k vs in
+  (* run the model step by step to obtain the prefix before a failure *)
+  let rec go st acc =
+    match merge_next mf st with
+    | Done (st', Some e) -> go st' (e :: acc)
+    | Done (_, None) -> (List.rev acc, "ok")
+    | Panic -> (List.rev acc, "panic")
+    | Fail e -> (List.rev acc, "err " ^ err_name e) in
+  let (mout, mend) = go { ms_heap = init_heap srcs N0; ms_calls = N0 } [] in
+  let impl_out = List.map (fun t -> match t with [k; v] -> (bytes_of_hex k, bytes_of_hex v) | _ -> failwith "out") (get_all c "out") in
+  let impl_end = String.concat " " (get c "outend") in
+  let show l = String.concat ";" (List.map (fun (k, v) -> hex_of_bytes k ^ ":" ^ hex_of_bytes v) l) in
+  check_eq c "out" (show impl_out) (show mout);
+  check_eq c "end" impl_end mend;
+  let show_calls l = String.concat ";" (List.map (fun (k, vs) -> hex_of_bytes k ^ "<-" ^ String.concat "," (List.map hex_of_bytes vs)) l) in
+  let impl_calls = List.map (fun t -> match t with
+      | [k; vs] -> (bytes_of_hex k, List.map bytes_of_hex (String.split_on_char ',' vs))
+      | _ -> failwith "call") (get_all c "call") in
+  check_eq c "calls" (show_calls impl_calls) (show_calls (List.rev !calls));
+  (* specification, evaluated on the implementation's output:
+     keys strictly ascending, exactly the union, each value = one merge call on the values in source order *)
+  let keys = List.map fst impl_out in
+  let n_distinct = List.length (List.sort_uniq compare (List.map hex_of_bytes (List.concat (List.map (List.map fst) srcs)))) in
+  let failing = (match get c "mf" with ["failat"; j] -> int_of_string j < n_distinct | _ -> false) in
+  spec_ok c (prop ^ ".sorted") (sorted_strictb keys) "output keys not strictly ascending";
+  let vals_of k = List.concat (List.map (fun s -> List.filter_map (fun (k', v) -> if k' = k then Some v else None) s) srcs) in
+  List.iter (fun (k, v) ->
+    spec_ok c (prop ^ ".value") (v = List.concat (vals_of k)) ("value of key " ^ hex_of_bytes k ^ " is not the merge of its values in source order")) impl_out;
+  if not failing then begin
+    let all_keys = List.sort_uniq compare (List.map hex_of_bytes (List.concat (List.map (List.map fst) srcs))) in
+    spec_ok c (prop ^ ".union") (List.sort compare (List.map hex_of_bytes keys) = all_keys) "output keys are not the union of the sources' keys";
+    spec_ok c (prop ^ ".once") (List.length impl_calls = List.length impl_out && List.map fst impl_calls = keys) "merge function not called exactly once per key";
+    spec_ok c (prop ^ ".end") (impl_end = "ok") ("merge ended with " ^ impl_end);
+    spec_ok c (prop ^ ".writer") (String.concat " " (get c "wfile") = entries_hash impl_out && impl_end = "ok") ("file written by write_into_stream_writer scans as " ^ String.concat " " (get c "wfile"))
+  end else begin
+    spec_ok c (prop ^ ".failure") (impl_end = "err merge") ("failing merge function surfaced as " ^ impl_end);
+    spec_ok c (prop ^ ".wfailure") (get c "wfile" = ["err"; "merge"]) ("write_into_stream_writer with failing merge function: " ^ String.concat " " (get c "wfile"))
+  end
+
+
+(* ---------- C07 / C08 / C17: sorter ---------- *)
+let parse_scfg c =
+  match get c "scfg" with
+  | [t; realloc; maxc; cap; stable; par] ->
+    ({ sc_threshold = n_of_string t; sc_realloc = (realloc = "1"); sc_max_chunks = clamp_chunks (n_of_string maxc);
+       sc_init_cap = n_of_string cap }, stable = "1", int_of_string t, int_of_string maxc)
+  | _ -> failwith "scfg"
+
+(* the bound predicates of C08 / C17 on one observed state *)
+let sorter_state_specs c prop (scfg : scfg) t_int small field (l, u, nb, _ch) =
+  spec_ok c ("C17." ^ field) (u + 16 * nb <= l && l mod 16 = 0 && l >= 16)
+    (Printf.sprintf "buffer regions overlap or misaligned: L=%d U=%d n=%d" l u nb);
+  if small && (prop = "C08") then begin
+    let bound = if scfg.sc_realloc then 2 * t_int else max t_int (int_of_n (round_up scfg.sc_init_cap)) in
+    spec_ok c ("C08.volume." ^ field) (u <= bound) (Printf.sprintf "unspilled volume %d exceeds %d (budget %d)" u bound t_int)
+  end
+
+let handle_sorter c =
+  let prop = get1 c "prop" in
+  let (scfg, stable, t_int, _) = parse_scfg c in
+  let m_int = int_of_n scfg.sc_max_chunks in
+  let small = get1 c "small" = "1" in
+  let mf : n -> n list -> n list list -> n list outcome = if stable then mf_concat else mf_sortcat in
+  let ins = List.map (fun t -> match t with
+      | k :: v :: "=" :: res -> ((bytes_of_hex k, bytes_of_hex v), res) | _ -> failwith "ins") (get_all c "ins") in
+  let st = ref (Done (s_new scfg)) in
+  let nst = ref (Done (n_new scfg)) in
+  let i = ref 0 in
+  List.iter (fun ((k, v), res) ->
+    incr i;
+    let field = Printf.sprintf "ins%d" !i in
+    match !st, res with
+    | Done s, ["-"] -> ()
+    | Done s, _ ->
+      let r = s_insert scfg mf s k v in
+      let nr = (match !nst with Done ns -> n_insert scfg ns (n_of_int (List.length k + List.length v)) | x -> x) in
+      let show_n = (match nr with
+        | Done ns -> Printf.sprintf "%s %s %s %s" (string_of_n ns.ns_buf.eb_L) (string_of_n ns.ns_buf.eb_U) (string_of_n ns.ns_buf.eb_n) (string_of_n ns.ns_chunks)
+        | Panic -> "P" | Fail e -> "E " ^ err_name e) in
+      let show = (match r with
+        | Done s' -> Printf.sprintf "%s %s %s %d" (string_of_n s'.ss_buf.eb_L) (string_of_n s'.ss_buf.eb_U) (string_of_n s'.ss_buf.eb_n) (List.length s'.ss_chunks)
+        | Panic -> "P" | Fail e -> "E " ^ err_name e) in
+      check_eq c field (String.concat " " res) show;
+      check_eq c (field ^ ".numeric") (String.concat " " res) show_n;
+      (match res with
+       | [l; u; nb; ch] -> sorter_state_specs c prop scfg t_int small field (int_of_string l, int_of_string u, int_of_string nb, int_of_string ch)
+       | ["P"] -> spec_ok c (prop ^ ".nopanic") false (field ^ " panicked")
+       | _ -> spec_ok c (prop ^ ".noerr") false (field ^ " returned " ^ String.concat " " res));
+      st := r; nst := nr
+    | _ -> ()) ins;
+  (match !st, get_all c "out1" with
+   | Done s, [o1] ->
+     let spec = (match sorter_spec mf (List.map fst ins) with Done l -> entries_hash l | Panic -> "panic -" | Fail e -> "err " ^ err_name e) in
+     let model = (match s_finish mf s with Done (l, _) -> entries_hash l | Panic -> "panic -" | Fail e -> "err " ^ err_name e) in
+     check_eq c "out1" (String.concat " " o1) model;
+     List.iter (fun tag ->
+       match get_all c tag with
+       | [o] ->
+         spec_ok c (prop ^ "." ^ tag) (String.concat " " o = spec)
+           (Printf.sprintf "%s = %s, sort-and-merge of the inserts = %s" tag (String.concat " " o) spec)
+       | _ -> spec_ok c (prop ^ "." ^ tag) false "missing") ["out1"; "out2"; "out3"];
+     (match !nst with
+      | Done ns ->
+        let nf = n_finish ns in
+        check_eq c "creates" (get1 c "creates") (string_of_n nf.ns_creates);
+        incr n_checks;
+        let peak = int_of_string (get1 c "peak") in
+        if peak > int_of_n nf.ns_peak then begin
+          incr n_mismatch; Printf.printf "MISMATCH %s/%s peak impl=%d model<=%s\n" c.kind c.id peak (string_of_n nf.ns_peak) end;
+        spec_ok c "C08.chunks" (peak <= m_int + 2) (Printf.sprintf "%d chunks alive at once > max_nb_chunks %d + 2" peak m_int);
+        spec_ok c "C17.leak" (get1 c "leaked" = "0") ("chunks still alive after the run: " ^ get1 c "leaked")
+      | _ -> ())
+   | _ -> ());
+  spec_ok c "C17.layout" (get1 c "layout_mismatch" = "0") ("allocations freed with a layout different from their allocation: " ^ get1 c "layout_mismatch")
+
+let handle_sortnum c =
+  let prop = get1 c "prop" in
+  let (scfg, _, t_int, _) = parse_scfg c in
+  let m_int = int_of_n scfg.sc_max_chunks in
+  let nst = ref (Done (n_new scfg)) in
+  let i = ref 0 in
+  List.iter (fun t -> match t with
+    | ks :: vs :: "=" :: res ->
+      incr i;
+      let field = Printf.sprintf "ins%d" !i in
+      let nr = (match !nst with Done ns -> n_insert scfg ns (n_of_int (int_of_string ks + int_of_string vs)) | x -> x) in
+      let show_n = (match nr with
+        | Done ns -> Printf.sprintf "%s %s %s %s" (string_of_n ns.ns_buf.eb_L) (string_of_n ns.ns_buf.eb_U) (string_of_n ns.ns_buf.eb_n) (string_of_n ns.ns_chunks)
+        | Panic -> "P" | Fail e -> "E " ^ err_name e) in
+      check_eq c field (String.concat " " res) show_n;
+      (match res with
+       | [l; u; nb; ch] -> sorter_state_specs c prop scfg t_int true field (int_of_string l, int_of_string u, int_of_string nb, int_of_string ch)
+       | _ -> spec_ok c (prop ^ ".nopanic") false field);
+      nst := nr
+    | _ -> failwith "ins") (get_all c "ins");
+  (match !nst with
+   | Done ns ->
+     let peak = int_of_string (get1 c "peak") in
+     spec_ok c "C08.chunks" (peak <= m_int + 2) (Printf.sprintf "%d chunks alive at once > max %d + 2" peak m_int);
+     check_eq c "creates" (get1 c "creates") (string_of_n ns.ns_creates)
+   | _ -> ())
+
+
+(* ---------- C13: open ---------- *)
+let handle_open c =
+  let tail = bytes_of_hex (get1 c "tail") in
+  let total = int_of_string (get1 c "len") in
+  (* open only looks at the last 22 bytes: evaluate the model on the tail, padded to the real
+     length only when the string is shorter than the window we were given *)
+  let f = tail in
+  ignore total;
+  let impl = String.concat " " (get c "res") in
+  let model = match open_meta f with
+    | Done m -> Printf.sprintf "ok %d %s %s" (match m.m_version with FormatV1 -> 0 | FormatV2 -> 1) (string_of_n m.m_codec) (string_of_n m.m_count)
+    | Panic -> "panic" | Fail e -> "err " ^ err_name e in
+  check_eq c "open" impl model;
+  let accepted = String.length impl >= 2 && String.sub impl 0 2 = "ok" in
+  spec_ok c "C13.nopanic" (impl <> "panic") "Reader::new panicked";
+  spec_ok c "C13.iff" (accepted = valid_trailer_suffixb f)
+    (Printf.sprintf "open %s but valid-trailer-suffix = %b" impl (valid_trailer_suffixb f))
+
 let timing = try Sys.getenv "DRIVER_TIMING" = "1" with Not_found -> false
 let rec dispatch c =
   if timing then begin
@@ -449,6 +633,10 @@ and dispatch1 c =
   | "file" -> handle_file c
   | "hist" -> handle_hist c
   | "iter" -> handle_iter c
+  | "merge" -> handle_merge c
+  | "open" -> handle_open c
+  | "sorter" -> handle_sorter c
+  | "sortnum" -> handle_sortnum c
   | k -> failwith ("unknown case kind " ^ k)
 
 let () =
